@@ -31,6 +31,50 @@ def rust_path(q):
     return None
 
 
+# The documented flavours (part of the specification, like the `promised` table): every `Local*`
+# alias is the NoopLock flavour and never crosses threads; every other alias is the parking_lot
+# flavour, is Send + Sync for a Send payload and IS the named generic instantiation.
+FI = "futures_intrusive::"
+PL = "parking_lot::RawMutex"
+ALIASES = [
+    ("sync::LocalMutex<u8>", False, False, None),
+    ("sync::Mutex<u8>", True, True, "sync::GenericMutex<%s, u8>" % PL),
+    ("sync::LocalSemaphore", False, False, None),
+    ("sync::Semaphore", True, True, "sync::GenericSemaphore<%s>" % PL),
+    ("sync::SharedSemaphore", True, True, "sync::GenericSharedSemaphore<%s>" % PL),
+    ("sync::LocalManualResetEvent", False, False, None),
+    ("sync::ManualResetEvent", True, True, "sync::GenericManualResetEvent<%s>" % PL),
+    ("timer::LocalTimerService", False, False, None),
+    ("timer::TimerService", True, True, "timer::GenericTimerService<%s>" % PL),
+    ("channel::LocalChannel<u8, [u8; 2]>", False, False, None),
+    ("channel::Channel<u8, [u8; 2]>", True, True, "channel::GenericChannel<%s, u8, futures_intrusive::buffer::ArrayBuf<u8, [u8; 2]>>" % PL),
+    ("channel::LocalUnbufferedChannel<u8>", False, False, None),
+    ("channel::UnbufferedChannel<u8>", True, True, "channel::GenericChannel<%s, u8, futures_intrusive::buffer::ArrayBuf<u8, [u8; 0]>>" % PL),
+    ("channel::shared::Sender<u8>", True, True, "channel::shared::GenericSender<%s, u8, futures_intrusive::buffer::GrowingHeapBuf<u8>>" % PL),
+    ("channel::shared::Receiver<u8>", True, True, "channel::shared::GenericReceiver<%s, u8, futures_intrusive::buffer::GrowingHeapBuf<u8>>" % PL),
+    ("channel::shared::UnbufferedSender<u8>", True, True, "channel::shared::GenericSender<%s, u8, futures_intrusive::buffer::GrowingHeapBuf<u8>>" % PL),
+    ("channel::shared::UnbufferedReceiver<u8>", True, True, "channel::shared::GenericReceiver<%s, u8, futures_intrusive::buffer::GrowingHeapBuf<u8>>" % PL),
+    ("channel::LocalOneshotChannel<u8>", False, False, None),
+    ("channel::OneshotChannel<u8>", True, True, "channel::GenericOneshotChannel<%s, u8>" % PL),
+    ("channel::shared::OneshotSender<u8>", True, True, "channel::shared::GenericOneshotSender<%s, u8>" % PL),
+    ("channel::shared::OneshotReceiver<u8>", True, True, "channel::shared::GenericOneshotReceiver<%s, u8>" % PL),
+    ("channel::LocalOneshotBroadcastChannel<u8>", False, False, None),
+    ("channel::OneshotBroadcastChannel<u8>", True, True, "channel::GenericOneshotBroadcastChannel<%s, u8>" % PL),
+    ("channel::shared::OneshotBroadcastSender<u8>", True, True, "channel::shared::GenericOneshotBroadcastSender<%s, u8>" % PL),
+    ("channel::shared::OneshotBroadcastReceiver<u8>", True, True, "channel::shared::GenericOneshotBroadcastReceiver<%s, u8>" % PL),
+    ("channel::LocalStateBroadcastChannel<u8>", False, False, None),
+    ("channel::StateBroadcastChannel<u8>", True, True, "channel::GenericStateBroadcastChannel<%s, u8>" % PL),
+    ("channel::shared::StateSender<u8>", True, True, "channel::shared::GenericStateSender<%s, u8>" % PL),
+    ("channel::shared::StateReceiver<u8>", True, True, "channel::shared::GenericStateReceiver<%s, u8>" % PL),
+    ("sync::MutexGuard<'static, u8>", True, True, "sync::GenericMutexGuard<'static, %s, u8>" % PL),
+    ("sync::MutexLockFuture<'static, u8>", True, None, "sync::GenericMutexLockFuture<'static, %s, u8>" % PL),
+    ("sync::LocalMutexLockFuture<'static, u8>", False, False, None),
+    ("sync::SemaphoreAcquireFuture<'static>", True, None, "sync::GenericSemaphoreAcquireFuture<'static, %s>" % PL),
+    ("sync::LocalSemaphoreAcquireFuture<'static>", False, False, None),
+    ("sync::WaitForEventFuture<'static>", True, None, "sync::GenericWaitForEventFuture<'static, %s>" % PL),
+    ("sync::LocalWaitForEventFuture<'static>", False, False, None),
+]
+
 # user-implementable traits of the crate whose `dyn` form is probed
 DYN_PATHS = {"Clock": "futures_intrusive::timer::Clock"}
 
@@ -93,7 +137,7 @@ def gen_probe(types):
     os.makedirs(os.path.join(PROBE, "src"), exist_ok=True)
     with open(os.path.join(PROBE, "Cargo.toml"), "w") as f:
         f.write('[package]\nname = "c16probe"\nversion = "0.1.0"\nedition = "2021"\n\n[workspace]\n\n[dependencies]\n'
-                'futures-intrusive = { path = "/repo" }\nlock_api = "0.4.1"\n\n[profile.dev]\nopt-level = 0\ndebug = 0\n')
+                'futures-intrusive = { path = "/repo" }\nlock_api = "0.4.1"\nparking_lot = "0.12.0"\n\n[profile.dev]\nopt-level = 0\ndebug = 0\n')
     lock = "/repo/Cargo.lock"
     if os.path.exists(lock):
         subprocess.run(["cp", lock, os.path.join(PROBE, "Cargo.lock")])
@@ -162,6 +206,15 @@ fn main() {
             code = "".join("%d%d%d" % b for b in a)
             lines.append('    println!("%s impl:%s %s {}", (&P::<%s>(PhantomData)).is_t%d());' % (t["name"], tname, code or "-", ty, tidx[tname]))
             n += 1
+    # the documented aliases
+    for alias, _, _, same in ALIASES:
+        ty = FI + alias
+        for trait in ("Send", "Sync"):
+            lines.append('    println!("alias:%s %s - {}", (&P::<%s>(PhantomData)).is_%s());' % (alias.replace(" ", ""), trait, ty, trait.lower()))
+            n += 1
+        if same:
+            lines.append('    println!("alias:%s Same - {}", (std::any::TypeId::of::<%s>() == std::any::TypeId::of::<%s>()) as u8);' % (alias.replace(" ", ""), ty, FI + same))
+            n += 1
     # user-implementable traits the crate type-erases and shares between threads
     for tname, path in sorted(DYN_PATHS.items()):
         for trait in ("Send", "Sync"):
@@ -221,6 +274,14 @@ def gen_coq_table(types):
         for a in assignments_for(len(t["params"]), "Send"):
             code = "".join("%d%d%d" % b for b in a) or "-"
             table[(t["name"], "impl:" + tname, code)] = ("%s impl:%s %s" % (t["name"], tname, code)) in yes
+    for alias, snd, syn, same in ALIASES:
+        a = alias.replace(" ", "")
+        if snd is not None:
+            table[("alias:" + a, "Send", "-")] = snd
+        if syn is not None:
+            table[("alias:" + a, "Sync", "-")] = syn
+        if same:
+            table[("alias:" + a, "Same", "-")] = True
     dj = json.load(open(os.path.join(COQ, "Gen", "TypesGen.json"))).get("dyn_traits", {})
     for tname in DYN_PATHS:
         d = dj.get(tname, {})
@@ -293,13 +354,24 @@ def run(prop="C16", tier="quick", seed=1):
     ct, err = gen_coq_table(types)
     if ct is None:
         return [dict(kind="coq-table", detail=err)], cov
-    diffs = [(k, ct.get(k), rt.get(k)) for k in sorted(rt) if ct.get(k) != rt.get(k)]
+    diffs = [(k, ct.get(k), rt.get(k)) for k in sorted(rt) if ct.get(k) != rt.get(k) and not (k[0].startswith("alias:") and k not in ct)]
     cov.update(dict(programs=len(rt), disagreements_checked=len(diffs), rustc_instances_probed=len(rt),
                     public_types_probed=len(types), evaluations=len(rt),
                     distinct_nontrivial=sum(1 for v in rt.values() if v),
                     rustc_probe_samples=["%s %s %s -> %s" % (k + (v,)) for k, v in list(sorted(rt.items()))[:: max(1, len(rt) // 6)]][:6]))
     for k, c, rv in diffs[:10]:
-        problems.append(dict(kind="correspondence", detail=dict(key="auto-trait model vs rustc", instance=" ".join(k), coq=c, rustc=rv)))
+        if k[0].startswith("alias:"):
+            # a documented flavour changed: the program that (no longer) compiles is the failing input
+            al = [x for x in ALIASES if x[0].replace(" ", "") == k[0][6:]][0]
+            if k[1] == "Same":
+                fi = "assert_eq!(std::any::TypeId::of::<%s%s>(), std::any::TypeId::of::<%s%s>()); /* the alias is no longer the documented instantiation */" % (FI, al[0], FI, al[3])
+            elif c:
+                fi = "fn assert_%s<X: %s>() {} assert_%s::<%s%s>(); /* documented as %s, rejected by rustc */" % (k[1].lower(), k[1], k[1].lower(), FI, al[0], k[1])
+            else:
+                fi = "fn assert_%s<X: %s>() {} assert_%s::<%s%s>(); /* a local flavour must not be %s, accepted by rustc */" % (k[1].lower(), k[1], k[1].lower(), FI, al[0], k[1])
+            problems.append(dict(kind="monitor", what="documented-flavour", type=k[0], trait=k[1], assignment="-", rustc_accepts=bool(rv), failing_input=fi))
+        else:
+            problems.append(dict(kind="correspondence", detail=dict(key="auto-trait model vs rustc", instance=" ".join(k), coq=c, rustc=rv)))
     diag = diagnostics()
     if diag is None:
         problems.append(dict(kind="coq-diag", detail="Gen/C16Diag.v does not compile"))
